@@ -453,4 +453,462 @@ theorem writeCol_spec {fmt : Format} {d : Dataset} {sel : Option (List Bool)} {c
   | fitsTable => exact tableCol_spec h (by simp) (by simp)
 
 
+/-! ## reading one column back -/
+
+theorem expCol_name (fmt : Format) (d : Dataset) (sel : Option (List Bool)) (c : Column) :
+    (expCol fmt d sel c).name = nameRepr fmt c.name := by
+  unfold expCol
+  cases sel with
+  | none => rfl
+  | some m => simp only []; split <;> rfl
+
+theorem expCol_cat (fmt : Format) (d : Dataset) (sel : Option (List Bool)) (c : Column) :
+    (expCol fmt d sel c).cat = decide (c.kind = .str) := by
+  unfold expCol
+  cases sel with
+  | none => rfl
+  | some m => simp only []; split <;> rfl
+
+/-- the shape every exported component is expected to come back with -/
+def expShape (fmt : Format) (d : Dataset) (sel : Option (List Bool)) : List Nat :=
+  match sel with
+  | none => d.shape
+  | some m => if rowMode fmt d then [countTrue m] else d.shape
+
+theorem expCol_shape (fmt : Format) (d : Dataset) (sel : Option (List Bool)) (c : Column) :
+    (expCol fmt d sel c).shape = expShape fmt d sel := by
+  unfold expCol expShape
+  cases sel with
+  | none => rfl
+  | some m => simp only []; split <;> rfl
+
+theorem filled_of_some (r : RCol) (l : List Cell) (h : r.cells = l.map some) : filled r = l := by
+  simp [filled, h, maskedFill, List.map_map, Function.comp_def]
+
+theorem unmasked_of_some (r : RCol) (l : List Cell) (h : r.cells = l.map some) : unmasked r = l := by
+  simp [unmasked, h, List.map_map, Function.comp_def]
+
+theorem read_ok {fmt : Format} {d : Dataset} {sel : Option (List Bool)} {c : Column} {w : FCol} {r : RCol}
+    (hs : ColSpec fmt d sel c w) (hf : faithful fmt w r = true) (cells : List Cell)
+    (hcells : cells = valueRepr w) :
+    compOk (expCol fmt d sel c) (expShape fmt d sel, autotyped r.name r.kind cells) = true := by
+  simp only [faithful, Bool.and_eq_true, beq_iff_eq, Bool.or_eq_true] at hf
+  obtain ⟨⟨⟨hname, _hshape⟩, hrc⟩, hkind⟩ := hf
+  have htxt : r.kind = .str → ∀ x ∈ cells, nonNumericCell x = true := by
+    intro hk x hx
+    rcases hkind with he | hk2
+    · -- no rows at all
+      have : valueRepr w = [] := by
+        have : (valueRepr w).map some = [] := by rw [← hrc]; simpa using he
+        simpa using this
+      rw [hcells, this] at hx; simp at hx
+    · have : kindRepr w = .str := by simpa [hk] using hk2
+      exact hs.text (hs.kind.1 this) x (hcells ▸ hx)
+  obtain ⟨hc, hcat⟩ := autotyped_stable_aux r.name r.kind cells htxt
+  simp only [compOk, Bool.and_eq_true, beq_iff_eq, Bool.or_eq_true]
+  refine ⟨⟨⟨?_, ?_⟩, ?_⟩, ?_⟩
+  · rw [autotyped_name, hname, hs.name, expCol_name]
+  · rw [expCol_shape]
+  · rw [hc, hcells, hs.cells]
+  · by_cases he : (expCol fmt d sel c).cells = []
+    · left; simp [he]
+    · right
+      have hne : cells ≠ [] := by rw [hcells, hs.cells]; exact he
+      rw [hcat hne, expCol_cat]
+      rcases hkind with he' | hk2
+      · exfalso
+        have : (valueRepr w).map some = [] := by rw [← hrc]; simpa using he'
+        have : valueRepr w = [] := by simpa using this
+        exact hne (hcells ▸ this)
+      · have : (r.kind = .str) ↔ (c.kind = .str) := by
+          rw [← hs.kind]
+          constructor
+          · intro h; simpa [h] using hk2
+          · intro h; simpa [h] using hk2
+        simp [this]
+
+
+/-! ## lists of columns -/
+
+theorem allPairs_map_map {ι α β γ δ : Type} (R : α → β → Bool) (Q : γ → δ → Bool)
+    (f : ι → α) (e : ι → γ) (g : β → δ) (l : List ι) (rs : List β)
+    (hR : allPairs R (l.map f) rs = true)
+    (hstep : ∀ c ∈ l, ∀ r ∈ rs, R (f c) r = true → Q (e c) (g r) = true) :
+    allPairs Q (l.map e) (rs.map g) = true := by
+  induction l generalizing rs with
+  | nil => cases rs <;> simp_all [allPairs]
+  | cons c l ih =>
+    cases rs with
+    | nil => simp [allPairs] at hR
+    | cons r rs =>
+      simp only [List.map_cons, allPairs, Bool.and_eq_true] at hR ⊢
+      refine ⟨hstep c List.mem_cons_self r List.mem_cons_self hR.1, ih rs hR.2 ?_⟩
+      intro c' hc' r' hr'
+      exact hstep c' (List.mem_cons_of_mem _ hc') r' (List.mem_cons_of_mem _ hr')
+
+theorem allPairs_right_mem {α β : Type} (R : α → β → Bool) (as : List α) (bs : List β)
+    (h : allPairs R as bs = true) : ∀ b ∈ bs, ∃ a ∈ as, R a b = true := by
+  induction as generalizing bs with
+  | nil => cases bs <;> simp_all [allPairs]
+  | cons a as ih =>
+    cases bs with
+    | nil => simp
+    | cons b bs =>
+      simp only [allPairs, Bool.and_eq_true] at h
+      intro b' hb'
+      rcases List.mem_cons.1 hb' with rfl | hb'
+      · exact ⟨a, List.mem_cons_self, h.1⟩
+      · obtain ⟨a', ha', hr⟩ := ih bs h.2 b' hb'
+        exact ⟨a', List.mem_cons_of_mem _ ha', hr⟩
+
+theorem allPairs_length {α β : Type} (R : α → β → Bool) (as : List α) (bs : List β)
+    (h : allPairs R as bs = true) : as.length = bs.length := by
+  induction as generalizing bs with
+  | nil => cases bs <;> simp_all [allPairs]
+  | cons a as ih =>
+    cases bs with
+    | nil => simp [allPairs] at h
+    | cons b bs =>
+      simp only [allPairs, Bool.and_eq_true] at h
+      simp [ih bs h.2]
+
+/-! ## the export plan -/
+
+theorem mem_plan (d : Dataset) (comps : Option (List Nat)) (c : Column) (h : c ∈ plan d comps) :
+    c ∈ d.cols := by
+  simp only [plan, List.mem_map, List.mem_filter, List.mem_append] at h
+  obtain ⟨p, ⟨hp, _⟩, rfl⟩ := h
+  rcases hp with ⟨hp, _⟩ | ⟨hp, _⟩ <;>
+  · obtain ⟨a, i⟩ := p
+    exact (List.mem_zipIdx hp).2.2 ▸ List.getElem_mem _
+
+theorem filter_const_true {α : Type} (l : List α) : l.filter (fun _ => true) = l := by
+  induction l with
+  | nil => rfl
+  | cons a l ih => simp
+
+theorem exportFile_eq (fmt : Format) (d : Dataset) (sel : Option (List Bool)) (comps : Option (List Nat)) :
+    exportFile fmt d sel comps = ((plan d comps).filter (carried fmt)).map (writeCol fmt d sel) := by
+  have hc : ∀ f : Format, f ≠ .fitsImage → carried f = fun _ => true := by
+    intro f hf; funext c; simp [carried, hf]
+  have hi : carried .fitsImage = fun c => c.kind.numerical := by
+    funext c; simp [carried]
+  cases fmt
+  case fitsImage => rw [hi]; rfl
+  case csv => rw [hc .csv (by simp), filter_const_true]; rfl
+  case ipac => rw [hc .ipac (by simp), filter_const_true]; rfl
+  case latex => rw [hc .latex (by simp), filter_const_true]; rfl
+  case votable => rw [hc .votable (by simp), filter_const_true]; rfl
+  case fitsTable => rw [hc .fitsTable (by simp), filter_const_true]; rfl
+  case hdf5 => rw [hc .hdf5 (by simp), filter_const_true]; rfl
+
+
+/-! ## unpacking the quantifier -/
+
+structure DomFacts (fmt : Format) (d : Dataset) (sel : Option (List Bool)) (comps : Option (List Nat)) : Prop where
+  npos : 0 < prod d.shape
+  cols : ∀ c ∈ d.cols, c.cells.length = prod d.shape ∧ ∀ x ∈ c.cells, cellFits fmt c.kind x = true
+  mlen : ∀ m, sel = some m → m.length = prod d.shape
+  plne : (plan d comps).filter (carried fmt) ≠ []
+  oned : fmt ≠ .hdf5 → fmt ≠ .fitsImage → d.shape.length = 1
+  latex : fmt = .latex → ∀ m, sel = some m → 0 < countTrue m
+  blank : ∀ m, sel = some m → fmt = .fitsImage →
+    ∀ c ∈ (plan d comps).filter (carried fmt), selectedAll (blankSafe c.kind) m c.cells = true
+
+theorem domFacts {fmt : Format} {d : Dataset} {sel : Option (List Bool)} {comps : Option (List Nat)}
+    (h : inDomain fmt d sel comps = true) : DomFacts fmt d sel comps := by
+  simp only [inDomain, inQuantifier, Bool.and_eq_true, decide_eq_true_eq, Bool.not_eq_true',
+    List.all_eq_true, beq_iff_eq, Bool.or_eq_true, List.isEmpty_eq_false_iff] at h
+  obtain ⟨⟨⟨⟨⟨⟨⟨⟨hn, _⟩, hcols⟩, _⟩, hm⟩, hpl⟩, h1⟩, hlx⟩, hbl⟩ := h
+  refine ⟨hn, ?_, ?_, hpl, ?_, ?_, ?_⟩
+  · intro c hc
+    have := hcols c hc
+    exact ⟨this.1.1.1, this.1.2⟩
+  · intro m hs; subst hs; simpa using hm
+  · intro h5 hi
+    rcases h1 with (h1 | h1) | h1
+    · exact absurd h1 h5
+    · exact absurd h1 hi
+    · exact h1
+  · intro hl m hs; subst hs; subst hl
+    simpa using hlx
+  · intro m hs hf c hc; subst hs; subst hf
+    simp only [blankClause, Bool.or_eq_true, List.all_eq_true] at hbl
+    rcases hbl with hbl | hbl
+    · simp at hbl
+    · exact hbl c hc
+
+theorem domain_col {fmt : Format} {d : Dataset} {sel : Option (List Bool)} {comps : Option (List Nat)}
+    (h : DomFacts fmt d sel comps) (c : Column) (hc : c ∈ (plan d comps).filter (carried fmt)) :
+    ColOk fmt d sel c := by
+  have hmem := List.mem_filter.1 hc
+  have hd := h.cols c (mem_plan d comps c hmem.1)
+  exact ⟨hd.1, hd.2, h.mlen, hmem.2, h.oned, fun m hs hf => h.blank m hs hf c hc⟩
+
+
+/-! ## the guards of `roundTripVia` -/
+
+theorem cellAscii_of_fits (k : Kind) (x : Cell) (h : cellFits .fitsTable k x = true) :
+    cellAscii x = true := by
+  cases x with
+  | nan => rfl
+  | num q => rfl
+  | str s =>
+    simp only [cellFits, clearText, Bool.and_eq_true, List.all_eq_true] at h
+    simp only [cellAscii, List.all_eq_true, decide_eq_true_eq]
+    intro c hc
+    have := h.2.2 c hc
+    simp only [safeChar, Bool.and_eq_true, decide_eq_true_eq] at this
+    omega
+
+theorem tableCol_cells_mem (d : Dataset) (sel : Option (List Bool)) (c : Column) (x : Cell)
+    (h : x ∈ (tableCol d sel c).cells) : x ∈ c.cells := by
+  cases sel with
+  | none => exact h
+  | some m => exact mem_selectRows m c.cells x h
+
+theorem tableCol_cells_length {fmt : Format} {d : Dataset} {sel : Option (List Bool)} {c : Column}
+    (h : ColOk fmt d sel c) :
+    (tableCol d sel c).cells.length = match sel with | none => prod d.shape | some m => countTrue m := by
+  cases sel with
+  | none => exact h.len
+  | some m =>
+    simp only [tableCol]
+    exact selectRows_length m c.cells (by rw [h.mlen m rfl, h.len])
+
+
+/-! ## the loaders as maps -/
+
+/-- the component a loader builds from one read column -/
+def loadComp (fmt : Format) (r : RCol) : LComp :=
+  autotyped r.name r.kind (if fmt.ascii || fmt = .votable then filled r else unmasked r)
+
+theorem flatten_single (sh : List Nat) (cs : List LComp) :
+    flatten [⟨sh, cs⟩] = cs.map fun c => (sh, c) := by
+  simp [flatten]
+
+theorem flatten_images (l : List RCol) (f : RCol → LComp) :
+    flatten (l.map fun c => ⟨c.shape, [f c]⟩) = l.map fun c => (c.shape, f c) := by
+  induction l with
+  | nil => rfl
+  | cons a l ih =>
+    simp only [flatten, List.map_cons, List.flatMap_cons, List.map_nil] at ih ⊢
+    rw [ih]; rfl
+
+theorem flatten_loadFile (fmt : Format) (rs : List RCol) (S : List Nat)
+    (hS : ∀ r ∈ rs, r.shape = S) (hpos : fmt = .fitsImage → 0 < prod S) :
+    flatten (loadFile fmt rs) = rs.map fun r => (S, loadComp fmt r) := by
+  cases rs with
+  | nil => cases fmt <;> simp [loadFile, flatten, hdf5Load, fitsImageLoad, fitsTableLoad, tabularLoad]
+  | cons r0 rs =>
+    have h0 : r0.shape = S := hS r0 List.mem_cons_self
+    cases fmt
+    case fitsImage =>
+      have hf : (r0 :: rs).filter (fun c => decide (prod c.shape > 0)) = r0 :: rs := by
+        apply List.filter_eq_self.2
+        intro r hr
+        simp [hS r hr, hpos rfl]
+      simp only [loadFile, fitsImageLoad, hf]
+      rw [flatten_images]
+      apply List.map_congr_left
+      intro r hr
+      simp [hS r hr, loadComp, Format.ascii]
+    all_goals
+      simp only [loadFile, tabularLoad, fitsTableLoad, hdf5Load, flatten_single, h0, List.map_map]
+      apply List.map_congr_left
+      intro r hr
+      simp [loadComp, Format.ascii]
+
+
+/-! ## the round trip -/
+
+theorem loadComp_cells {fmt : Format} {w : FCol} {r : RCol} (hf : faithful fmt w r = true) :
+    loadComp fmt r = autotyped r.name r.kind (valueRepr w) := by
+  have hrc : r.cells = (valueRepr w).map some := by
+    simp only [faithful, Bool.and_eq_true, beq_iff_eq] at hf
+    exact hf.1.2
+  unfold loadComp
+  split
+  · rw [filled_of_some r _ hrc]
+  · rw [unmasked_of_some r _ hrc]
+
+theorem faithful_shape {fmt : Format} {w : FCol} {r : RCol} (hf : faithful fmt w r = true) :
+    r.shape = w.shape := by
+  simp only [faithful, Bool.and_eq_true, beq_iff_eq] at hf
+  exact hf.1.1.2
+
+/-- **Round trip through any channel that honours the contract on the written file.** -/
+theorem roundTripVia_spec (ch : List FCol → List RCol) (fmt : Format) (d : Dataset)
+    (sel : Option (List Bool)) (comps : Option (List Nat))
+    (hP : inDomain fmt d sel comps = true)
+    (hch : allPairs (faithful fmt) (exportFile fmt d sel comps) (ch (exportFile fmt d sel comps)) = true) :
+    ∃ out, roundTripVia ch fmt d sel comps = .ok out ∧ specOk fmt d sel comps out = true := by
+  have hD := domFacts hP
+  have hcol := domain_col hD
+  have hfile := exportFile_eq fmt d sel comps
+  -- the plan is not empty
+  obtain ⟨c0, pl, hpl⟩ : ∃ c0 pl, (plan d comps).filter (carried fmt) = c0 :: pl := by
+    cases hq : (plan d comps).filter (carried fmt) with
+    | nil => exact absurd hq hD.plne
+    | cons a l => exact ⟨a, l, rfl⟩
+  have hc0 : ColOk fmt d sel c0 := hcol c0 (by rw [hpl]; exact List.mem_cons_self)
+  -- guard 1: something is written
+  have hg1 : (exportFile fmt d sel comps).isEmpty = false := by
+    rw [hfile, hpl]; rfl
+  -- guard 2: FITS can encode every text cell
+  have hg2 : ¬ (fmt = .fitsTable ∧ ¬ ((exportFile fmt d sel comps).all fun c => c.cells.all cellAscii) = true) := by
+    rintro ⟨hf, hna⟩
+    apply hna
+    subst hf
+    rw [hfile]
+    simp only [List.all_eq_true, List.mem_map]
+    rintro w ⟨c, hc, rfl⟩ x hx
+    have hx' : x ∈ c.cells := tableCol_cells_mem d sel c x hx
+    exact cellAscii_of_fits c.kind x ((hcol c hc).fits x hx')
+  -- guard 3: a LaTeX table has at least one row
+  have hg3 : ¬ (fmt = .latex ∧ ((exportFile fmt d sel comps).all fun c => c.cells.isEmpty) = true) := by
+    rintro ⟨hf, hall⟩
+    subst hf
+    rw [hfile, hpl] at hall
+    simp only [List.map_cons, List.all_cons, Bool.and_eq_true, List.isEmpty_iff] at hall
+    have hlen := tableCol_cells_length hc0
+    have h0 : (writeCol .latex d sel c0).cells = [] := hall.1
+    have h0' : (tableCol d sel c0).cells.length = 0 := by
+      have : writeCol .latex d sel c0 = tableCol d sel c0 := rfl
+      rw [← this, h0]; rfl
+    rw [hlen] at h0'
+    cases sel with
+    | none => have := hD.npos; simp at h0'; omega
+    | some m => have := hD.latex rfl m rfl; simp at h0'; omega
+  refine ⟨loadFile fmt (ch (exportFile fmt d sel comps)), ?_, ?_⟩
+  · simp only [roundTripVia, hg1, Bool.false_eq_true, if_false, if_neg hg2, if_neg hg3]
+  · -- every read column has the expected shape
+    have hshape : ∀ r ∈ ch (exportFile fmt d sel comps), r.shape = expShape fmt d sel := by
+      intro r hr
+      obtain ⟨w, hw, hf⟩ := allPairs_right_mem _ _ _ hch r hr
+      rw [hfile] at hw
+      obtain ⟨c, hc, rfl⟩ := List.mem_map.1 hw
+      rw [faithful_shape hf, (writeCol_spec (hcol c hc)).shape, expCol_shape]
+    have hpos : fmt = .fitsImage → 0 < prod (expShape fmt d sel) := by
+      intro hf; subst hf
+      cases sel with
+      | none => exact hD.npos
+      | some m => simp [expShape, rowMode]; exact hD.npos
+    unfold specOk expected
+    rw [flatten_loadFile fmt _ (expShape fmt d sel) hshape hpos]
+    generalize ch (exportFile fmt d sel comps) = rs at hch
+    rw [hfile] at hch
+    apply allPairs_map_map (faithful fmt) compOk (writeCol fmt d sel) (expCol fmt d sel) _ _ _ hch
+    intro c hc r _ hf
+    rw [loadComp_cells hf]
+    exact read_ok (writeCol_spec (hcol c hc)) hf _ rfl
+
+
+/-! ## the concrete channels honour the contract on the quantifier -/
+
+theorem allPairs_self_map {α β : Type} (R : α → β → Bool) (g : α → β) (l : List α)
+    (h : ∀ a ∈ l, R a (g a) = true) : allPairs R l (l.map g) = true := by
+  induction l with
+  | nil => rfl
+  | cons a l ih =>
+    simp only [List.map_cons, allPairs, Bool.and_eq_true]
+    exact ⟨h a List.mem_cons_self, ih fun b hb => h b (List.mem_cons_of_mem _ hb)⟩
+
+theorem idealRead_faithful (fmt : Format) (w : FCol) : faithful fmt w (idealRead fmt w) = true := by
+  simp [faithful, idealRead]
+
+theorem intLike_alpha (c : Nat) (cs : Str) (h : isAlpha c = true) : intLike (c :: cs) = false := by
+  obtain ⟨hd, h45, h43, _⟩ := isAlpha_facts c h
+  have h1 : ((some c : Option Nat) == some 45) = false := by simp [h45]
+  have h2 : ((some c : Option Nat) == some 43) = false := by simp [h43]
+  simp [intLike, h1, h2, hd]
+
+/-- cells that are text starting with a letter -/
+def AlphaText (x : Cell) : Prop := ∃ c cs, x = .str (c :: cs) ∧ isAlpha c = true
+
+theorem asciiCells_text (l : List Cell) (hl : ∀ x ∈ l, AlphaText x) :
+    asciiCells .str (l.map textOf) = l.map some := by
+  induction l with
+  | nil => rfl
+  | cons y ys ih =>
+    obtain ⟨c, cs, rfl, _⟩ := hl y List.mem_cons_self
+    have := ih fun z hz => hl z (List.mem_cons_of_mem _ hz)
+    simp only [asciiCells, List.map_cons] at this ⊢
+    rw [this]
+    rfl
+
+theorem present_text (l : List Cell) (hl : ∀ x ∈ l, AlphaText x) :
+    (l.map textOf).filter (fun s => !s.isEmpty) = l.map textOf := by
+  apply List.filter_eq_self.2
+  intro s hs
+  obtain ⟨x, hx, rfl⟩ := List.mem_map.1 hs
+  obtain ⟨c, cs, rfl, _⟩ := hl x hx
+  simp [textOf]
+
+theorem asciiRead_text (fmt : Format) (w : FCol) (hk : w.kind = .str) (hb : w.blank = none)
+    (hc : ∀ x ∈ w.cells, AlphaText x) :
+    faithful fmt w (asciiRead fmt w) = true := by
+  have hv : valueRepr w = w.cells := by simp [valueRepr, hb]
+  have hkr : kindRepr w = .str := by simp [kindRepr, hb, hk]
+  cases hcells : w.cells with
+  | nil => simp [asciiRead, hk, hcells, faithful, hv, asciiCells]
+  | cons x xs =>
+    obtain ⟨c, cs, rfl, hal⟩ := hc x (by rw [hcells]; exact List.mem_cons_self)
+    have hc' : ∀ y ∈ Cell.str (c :: cs) :: xs, AlphaText y := by rw [← hcells]; exact hc
+    have h1 : ((Cell.str (c :: cs) :: xs).map textOf).all intLike = false := by
+      simp [textOf, intLike_alpha c cs hal]
+    have h2 : ((Cell.str (c :: cs) :: xs).map textOf).all (fun s => (parseNum s).isSome) = false := by
+      simp [textOf, parseNum_none_of_alpha c cs hal]
+    have hrd : asciiRead fmt w = ⟨nameRepr fmt w.name, .str, w.shape, w.cells.map some⟩ := by
+      simp only [asciiRead, hk, hcells, present_text _ hc', h1, h2, Bool.false_eq_true, if_false,
+        asciiCells_text _ hc']
+    rw [hrd]
+    simp [faithful, hv, hkr]
+
+theorem asciiRead_faithful (fmt : Format) (w : FCol) (hb : w.blank = none)
+    (hc : w.kind = .str → ∀ x ∈ w.cells, AlphaText x) :
+    faithful fmt w (asciiRead fmt w) = true := by
+  have hv : valueRepr w = w.cells := by simp [valueRepr, hb]
+  have hne : ∀ k : Kind, k ≠ .str → (k == Kind.str) = false := by intro k h; simp [h]
+  cases hk : w.kind with
+  | str => exact asciiRead_text fmt w hk hb (hc hk)
+  | float => simp [asciiRead, hk, faithful, hv, kindRepr, hb]
+  | int b => simp [asciiRead, hk, faithful, hv, kindRepr, hb, hne]
+  | uint b => simp [asciiRead, hk, faithful, hv, kindRepr, hb, hne]
+
+
+theorem channelOf_faithful (fmt : Format) (d : Dataset) (sel : Option (List Bool))
+    (comps : Option (List Nat)) (hP : inDomain fmt d sel comps = true) :
+    allPairs (faithful fmt) (exportFile fmt d sel comps)
+      (channelOf fmt (exportFile fmt d sel comps)) = true := by
+  unfold channelOf
+  split
+  · next hasc =>
+    apply allPairs_self_map
+    intro w hw
+    rw [exportFile_eq] at hw
+    obtain ⟨c, hc, rfl⟩ := List.mem_map.1 hw
+    have hcol := domain_col (domFacts hP) c hc
+    have hw : writeCol fmt d sel c = tableCol d sel c := by
+      cases fmt <;> first | rfl | simp [Format.ascii] at hasc
+    rw [hw]
+    apply asciiRead_faithful
+    · cases sel <;> rfl
+    · intro hk x hx
+      have hk' : c.kind = .str := by cases sel <;> exact hk
+      have hx' := tableCol_cells_mem d sel c x hx
+      have := hcol.fits x hx'
+      rw [hk'] at this
+      exact cellFits_str fmt x this
+  · apply allPairs_self_map
+    intro w _
+    exact idealRead_faithful fmt w
+
+/-- The form the driver evaluates (`implok`). -/
+theorem roundTrip_spec (fmt : Format) (d : Dataset) (sel : Option (List Bool)) (comps : Option (List Nat))
+    (hP : inDomain fmt d sel comps = true) :
+    ∃ out, roundTrip fmt d sel comps = .ok out ∧ specOk fmt d sel comps out = true :=
+  roundTripVia_spec (channelOf fmt) fmt d sel comps hP (channelOf_faithful fmt d sel comps hP)
+
+
 end GlueVerif.Export.Lemmas
